@@ -17,7 +17,7 @@
               cubic natural, cubic periodic and linear spline).                                    *)
 EXTENDS SplineRel, TLC, Json, IOUtils
 
-CONSTANTS NSet, GapsOf(_), YsOf(_), Y2Of(_), OffSet, MulSet, Q, Emit
+CONSTANTS NSet, GapsOf(_), YsOf(_), Y2Of(_), OffsOf(_), MulSet, Q, Emit
 VARIABLES c, ph
 vars == <<c, ph>>
 
@@ -30,7 +30,7 @@ Knots(o, g) == [i \in 1..(Len(g) + 1) |-> Q * (o + SumTo(g, i - 1))]
 Hash(n, g, o, y) == (SumTo([i \in 1..n |-> i * y[i]], n) + 3 * SumTo(g, n - 1) + o) % NSlices
 
 Init == /\ ph = 0
-        /\ \E n \in NSet : \E g \in [1..(n - 1) -> GapsOf(n)], o \in OffSet, y \in [1..n -> YsOf(n)] :
+        /\ \E n \in NSet : \E g \in [1..(n - 1) -> GapsOf(n)], o \in OffsOf(n), y \in [1..n -> YsOf(n)] :
               /\ Hash(n, g, o, y) = Slice
               /\ \/ \E z \in Y2Of(n), m \in MulSet : c = [fam |-> "linear", K |-> Knots(o, g), Y |-> y, Z |-> z, m |-> m]
                  \/ c = [fam |-> "fitspace", K |-> Knots(o, g), Y |-> y]
